@@ -29,9 +29,10 @@ func coversEscapeSet(s string) bool {
 
 // identityGuardOn: cond (with the polarity `want` required to reach the raw emission) implies
 // Escape(x) == x, i.e. x contains none of & < > " '. Recognised forms:
-//   strings.ContainsAny(x, set)  == false
-//   strings.IndexAny(x, set) < 0 / == -1  (true)   or   >= 0 / != -1 (false)
-//   pred(x) == false  where pred is an identity predicate (see identityPredicate)
+//
+//	strings.ContainsAny(x, set)  == false
+//	strings.IndexAny(x, set) < 0 / == -1  (true)   or   >= 0 / != -1 (false)
+//	pred(x) == false  where pred is an identity predicate (see identityPredicate)
 func (p *Prog) identityGuardOn(cnd ssa.Value, want bool, x ssa.Value) bool {
 	same := func(v ssa.Value) bool { return v == x || sameValue(v, x) || valueIdentity(v) == valueIdentity(x) }
 	if cl, ok := cnd.(*ssa.Call); ok {
